@@ -38,26 +38,34 @@ func VerifC17Migration() {
 	verifAssume(verifAnd(pos >= root, pos < 1<<41))
 	f.request("hset", []interface{}{old, "rid1_runid", "rid1", "rid1_version", "v", "rid1_offset", strconv.FormatInt(root, 10)})
 	tag := checkpoint.BisyncSlotTag(0)
+	// a namespace written before the mode field existed carries no bisync_mode: its format is inferred
+	legacy := verifChoose("legacyNamespace", 2) == 1
 	var fromMode, toMode config.ReplayMode
 	if toParallel {
 		fromMode, toMode = config.ReplayModeSync, config.ReplayModeParallel
 		key := checkpoint.BisyncLatestCheckpointKey(old, tag)
 		rec := &checkpoint.BisyncCommitRecord{Key: key, RunID: "rid1", SyncerID: "s", UnitSeq: 7, StartOffset: pos - 1, EndOffset: pos, Slot: 0, MTime: 9}
 		f.request("hset", append([]interface{}{key}, rec.HashArgs()...))
-		checkpoint.SaveBisyncNamespaceMode(f, old, checkpoint.BisyncModeSync)
+		if !legacy {
+			checkpoint.SaveBisyncNamespaceMode(f, old, checkpoint.BisyncModeSync)
+		}
 	} else {
 		fromMode, toMode = config.ReplayModeParallel, config.ReplayModeSync
 		fr := &checkpoint.BisyncFrontierSnapshot{Version: "v", RunID: "rid1", UnitSeq: 7, Offset: pos, MTime: 9}
 		f.request("hset", append([]interface{}{checkpoint.BisyncFrontierKey(old)}, fr.HashArgs()...))
-		checkpoint.SaveBisyncNamespaceMode(f, old, checkpoint.BisyncModeParallel)
+		if !legacy {
+			checkpoint.SaveBisyncNamespaceMode(f, old, checkpoint.BisyncModeParallel)
+		}
 	}
+	verifCover(legacy, "c17.migration.legacy-namespace")
 	before, ok := verifResumeOf(f, old, fromMode)
 	verifAssert(ok && before == pos, "C17.migration.setup")
 	nSeed := len(f.log)
 	s := &syncer{logger: log.WithLogger("[verif] ")}
 	desired := checkpoint.BisyncModeFromReplayMode(toMode)
 	name1, err := s.resolveBisyncCheckpointNameWithClient(f, []string{"rid1", ""}, desired, []uint16{0})
-	verifAssert(err == nil && name1 != old, "C17.migration.error")
+	verifAssert(err == nil, "C17.migration.error")
+	verifAssert(name1 != old, "C17.migration.not-migrated")
 	reqLog := f.log
 	verifObserve("reqs", int64(len(reqLog)-nSeed))
 	for p := nSeed; p <= len(reqLog); p++ {
